@@ -46,8 +46,8 @@ Module Names.
 Import Coq.Strings.String.
 (* OBLIGATION *)
 Theorem translated_functions :
-  M.translated = ["Ceiling"; "Clear"; "Empty"; "Floor"; "Get"; "Keys"; "Max"; "Min"; "New"; "NewWith"; "Put"; "Remove"; "Size"; "Values"]%string
-  /\ M.skipped = ["String"]%string /\ M.not_selected = [].
+  M.translated = ["All"; "Any"; "Ceiling"; "Clear"; "Empty"; "Find"; "Floor"; "Get"; "Keys"; "Map_Map"; "Max"; "Min"; "New"; "NewWith"; "Put"; "Remove"; "Select"; "Size"; "Values"]%string
+  /\ M.skipped = ["Each"; "String"]%string /\ M.not_selected = [].
 Proof. repeat split. Qed.
 Print Assumptions translated_functions.
 End Names.
